@@ -331,6 +331,11 @@ func (r *relay) updateTableSize(v uint32) {
 	r.encoderMu.Unlock()
 }
 
+// currentMaxFrameSize is the maximum frame size the destination currently accepts.
+func (r *relay) currentMaxFrameSize() uint32 {
+	return atomic.LoadUint32(&r.maxFrameSize)
+}
+
 func (r *relay) updateMaxFrameSize(v uint32) {
 	atomic.StoreUint32(&r.maxFrameSize, v)
 }
@@ -392,7 +397,7 @@ func (r *relay) data(id uint32, data []byte, streamEnded bool) error {
 		nextPayload := make([]byte, nextPayloadLength)
 		copy(nextPayload, data)
 		data = data[nextPayloadLength:]
-		f := &queuedDataFrame{id, streamEnded && len(data) == 0, nextPayload}
+		f := &queuedDataFrame{id, streamEnded && len(data) == 0, nextPayload, r.currentMaxFrameSize}
 
 		r.flowMu.Lock()
 		w.enqueue(f)
